@@ -115,6 +115,7 @@ type DataOpts struct {
 	Histogram   bool    // add h_bucket family
 	AllLabelled bool    // every series carries every label (C10-friendly data)
 	MinSeries   int
+	Metrics     []string // metric names to draw from (default m, n, k)
 }
 
 type Dataset struct {
@@ -165,7 +166,11 @@ func DrawDataset(t *rapid.T, w Window, o DataOpts) Dataset {
 	minIv := (dataHi - dataLo) / 250
 	for i := 0; i < n; i++ {
 		var lbls []core.Label
-		name := pick(t, metricNames, "metric")
+		mnames := metricNames
+		if len(o.Metrics) > 0 {
+			mnames = o.Metrics
+		}
+		name := pick(t, mnames, "metric")
 		if o.Histogram && chance(t, 1, 3, "hist") {
 			name = "h_bucket"
 		}
